@@ -3,6 +3,9 @@ use serde_json::Value;
 use crate::engine::{CheckResult, Engine, Tier, VERIF_DIR};
 
 pub mod c01;
+pub mod c02;
+pub mod c03;
+pub mod c04;
 
 pub struct Prop {
     pub id: &'static str,
@@ -14,6 +17,9 @@ pub struct Prop {
 pub fn all() -> Vec<Prop> {
     vec![
         Prop { id: "C01", level: "exploration", run: c01::run, replay: c01::replay },
+        Prop { id: "C02", level: "exploration", run: c02::run, replay: c02::replay },
+        Prop { id: "C03", level: "exploration", run: c03::run, replay: c03::replay },
+        Prop { id: "C04", level: "exploration", run: c04::run, replay: c04::replay },
     ]
 }
 
